@@ -75,6 +75,14 @@ TOL_GEN = F(1, 10**9)
 # ---------------------------------------------------------------------------------------------
 # generation
 # ---------------------------------------------------------------------------------------------
+SCALE = 2**20
+
+
+def scale_value(rng):
+    """2^20 + k*2^-12: exact doubles whose pairwise relative gaps are ~2e-10 (strictly ordered, nearly tied)"""
+    return F(SCALE) + F(rng.randint(0, 3), 2**12)
+
+
 def gen_case(rng, tier):
     gamma = rng.choice(GAMMAS) if rng.random() < .9 else "1"
     m = gen_mdp.gen_mdp(rng, nmax=5 if tier == "quick" else 6, amax=3, gamma=gamma, proper=True, min_states=2)
@@ -93,11 +101,39 @@ def gen_case(rng, tier):
             tbl = [[str(F(rng.randint(-40, 40), 8)) for _ in range(nA)] for _ in range(n)]
         iq = {"kind": "table", "table": tbl}
     temp = rng.choice(TEMPS) if rng.random() < .5 else "0"
+    alpha, eps = rng.choice(ALPHAS), rng.choice(EPSS)
     episodes = rng.choice([1, 1, 2, 3, 5, 8, 12, 20])
+    family = "plain"
+    if rng.random() < .2:
+        # reward-scale family: Q-values around 2^20 that differ by multiples of 2^-12 (relative gap < 1e-9):
+        # the greedy policy must separate them exactly.  Step size 1 => Q = reward on terminal transitions.
+        family = "scale"
+        for k, row in m["trans"].items():
+            s, a = map(int, k.split(","))
+            if not m["absorbing"][s]:
+                for ns, p in row:
+                    if F(p) > 0:
+                        m["reward"]["%d,%d,%d" % (s, a, ns)] = str(scale_value(rng))
+        alpha = "1" if rng.random() < .7 else rng.choice(ALPHAS)
+        eps = "1" if rng.random() < .7 else rng.choice(EPSS)
+        temp = "0"
+        episodes = rng.choice([5, 8, 12, 20])
+        if rng.random() < .6:
+            iq = {"kind": "table", "table": [[str(scale_value(rng)) for _ in range(nA)] for _ in range(n)]}
     if learner == "esarsa" and temp != "0":
         episodes = rng.choice([1, 1, 2, 3])     # recorded 44-bit probabilities enter the fold: keep it short
-    return {"mdp": m, "learner": learner, "alpha": rng.choice(ALPHAS), "eps": rng.choice(EPSS), "temp": temp,
+    case = {"mdp": m, "learner": learner, "alpha": alpha, "eps": eps, "temp": temp, "family": family,
             "initial_q": iq, "episodes": episodes, "seed": rng.randrange(10**6)}
+    if rng.random() < .3:
+        # object reuse: the SAME learner object is trained on A, then on B (same state and action labels,
+        # independently drawn absorbing set / action sets / transitions / rewards / discount), then on A again
+        for _ in range(40):
+            mb = gen_mdp.gen_mdp(rng, nmax=n, amax=3, gamma=rng.choice(GAMMAS), proper=True, min_states=n)
+            if mb["nA"] == nA:
+                case["stages"] = [m, mb, m]
+                case["episodes"] = min(episodes, 8)
+                break
+    return case
 
 
 def q0_table(case):
@@ -288,20 +324,34 @@ def search_failing(case, res, impl_rows, impl_pol):
 # ---------------------------------------------------------------------------------------------
 def run(ctx):
     tier = ctx.tier
-    ncases = 300 if tier == "quick" else 4000
+    ncases = 220 if tier == "quick" else 3000
     if ctx.replay_case:
         cases = [ctx.replay_case["detail"]["case"]]
     else:
         cases = [gen_case(ctx.rng, tier) for _ in range(ncases)]
     shards = min(ctx.jobs, 8 if tier == "quick" else 16)
     impl = ctx.impl("c10_impl.py", {"cases": cases}, shards=max(1, shards))["results"]
+    # every stage of a multi-stage case is judged on its own, against its own MDP; the view keeps the whole
+    # case (all stages) so that a replay re-runs the same learner object through the same sequence
+    ngen, nmulti = len(cases), sum(1 for c in cases if c.get("stages"))
+    vcases, vimpl = [], []
+    for case, res in zip(cases, impl):
+        stages = case.get("stages") or [case["mdp"]]
+        if "error" in res:
+            vcases.append(case), vimpl.append(res)
+            continue
+        for k, (mm, r) in enumerate(zip(stages, res["stages"])):
+            vcases.append(dict(case, mdp=mm, stage=k)), vimpl.append(r)
+    cases, impl = vcases, vimpl
 
     terms, meta = [], []
     parsed = {}
     stats = {"by_learner": {}, "alpha": {}, "eps": {}, "temp": {}, "initial_q": {}, "steps_total": 0, "max_steps": 0,
              "absorbing_start_episodes": 0, "sarsa_absorbing_start_first_seen": 0, "unvisited_state_cases": 0,
              "unvisited_nonconstant_init_cases": 0, "gamma_one": 0, "self_loop_steps": 0,
-             "ties_in_returned_rows": 0, "esarsa_softmax_cases": 0, "keys_mutated_by_policy_query": 0, "long_runs_oracle_only": 0}
+             "ties_in_returned_rows": 0, "esarsa_softmax_cases": 0, "keys_mutated_by_policy_query": 0, "long_runs_oracle_only": 0,
+             "family": {}, "stage": {}, "near_tie_rows_distinct_within_1e-9": 0, "reuse_absorbing_set_differs": 0,
+             "reuse_action_sets_differ": 0}
     distinct = set()
     for i, (case, res) in enumerate(zip(cases, impl)):
         kind = case["learner"]
@@ -364,6 +414,17 @@ def run(ctx):
             meta.append(("rows", i))
         # ---- input distribution ----
         stats["by_learner"][kind] = stats["by_learner"].get(kind, 0) + 1
+        stats["family"][case.get("family", "plain")] = stats["family"].get(case.get("family", "plain"), 0) + 1
+        if case.get("stages"):
+            stats["stage"][str(case["stage"])] = stats["stage"].get(str(case["stage"]), 0) + 1
+            if case["stage"] == 1:
+                ma, mb = case["stages"][0], case["stages"][1]
+                stats["reuse_absorbing_set_differs"] += int(ma["absorbing"] != mb["absorbing"])
+                stats["reuse_action_sets_differ"] += int(ma["actions"] != mb["actions"])
+        for rv in impl_rows.values():
+            mxv = max(rv.values())
+            if any(v != mxv and abs(v - mxv) <= F(1, 10**9) * abs(mxv) for v in rv.values()):
+                stats["near_tie_rows_distinct_within_1e-9"] += 1
         for k in ("alpha", "eps", "temp"):
             stats[k][case[k]] = stats[k].get(case[k], 0) + 1
         stats["initial_q"][case["initial_q"]["kind"]] = stats["initial_q"].get(case["initial_q"]["kind"], 0) + 1
@@ -460,8 +521,12 @@ def run(ctx):
                 "integer/quarter rewards of either sign, absorbing states possibly in the initial distribution, gamma in {1/2,3/4,7/8} or 1) "
                 "x learner in {QLearning, SARSA, ExpectedSARSA, DoubleQLearning} x step size {0,1/8,1/2,1} x epsilon {0,1/20,1} "
                 "x softmax temperature {0,1/2,2} x initial_q {float const, int const, callable table} x episodes 1..20 x seed; "
+                "20%% reward-scale family (rewards / initial Q = 2^20 + k*2^-12, step size 1, epsilon 1: distinct Q-values with relative gap < 1e-9); "
+                "30%% object-reuse sequences (ONE learner object trained on A, B, A with the same labels and independently drawn "
+                "absorbing sets / action sets / rewards; each stage is one evaluation against its own MDP); "
                 "distinct = structural hash of (MDP, learner, parameters, recorded experience); non-trivial = at least one experienced step"
                 % (5 if tier == "quick" else 6),
         "samples": [{"case": cases[0], "impl": impl[0]}] if cases else [],
-        "cases": len(cases), "interval_checked": interval_checked, "input_features": stats,
+        "cases": len(cases), "generated_cases": ngen, "multi_stage_cases": nmulti,
+        "interval_checked": interval_checked, "input_features": stats,
     })
